@@ -156,6 +156,159 @@ pub fn check_text(t: &str, all_spans: bool) -> (u64, Option<Failure>) {
     (n, None)
 }
 
+fn n_server(tier: Tier) -> u64 {
+    match tier {
+        Tier::Quick => 600,
+        Tier::Thorough => 12_000,
+    }
+}
+
+// ---------------------------------------------------------------------------------------
+// The server door: the ranges the real oal-lsp publishes for the spans of syntax errors.
+
+thread_local! {
+    static SERVER: std::cell::RefCell<Option<(crate::lspc::Scratch, crate::lspc::Lsp)>> = const { std::cell::RefCell::new(None) };
+}
+
+/// The syntax errors of a text with their spans, as the server logs them.
+fn syntax_errors(text: &str) -> Vec<((usize, usize), String)> {
+    let loc = crate::oal::locator("main.oal");
+    let (_, errs) = oal_syntax::parse::<_, oal_compiler::tree::Core>(loc, text.to_owned());
+    errs.iter()
+        .map(|e| {
+            let span = match e {
+                oal_syntax::errors::Error::Grammar(g) => (g.span().start(), g.span().end()),
+                oal_syntax::errors::Error::Lexicon(l) => (l.span().start(), l.span().end()),
+                _ => (0, 0),
+            };
+            (span, e.to_string())
+        })
+        .collect()
+}
+
+/// Every syntax error of `text` must be among the published diagnostics with the range that
+/// selects its span in `text` (the client's document). Returns the number of ranges checked.
+fn check_published(text: &str, published: &[Value], what: &str) -> Result<u64, Failure> {
+    let mut n = 0;
+    for ((a, b), msg) in syntax_errors(text) {
+        let (a, b) = (a.min(text.len()), b.min(text.len()));
+        if !text.is_char_boundary(a) || !text.is_char_boundary(b) || inside_crlf(text, a) || inside_crlf(text, b) {
+            continue;
+        }
+        let want = crate::lspcheck::range_of(text, (a, b));
+        // Messages name the module by its URL, which differs between the harness and the server.
+        let strip = |m: &str| -> String {
+            match (m.find("file://"), m.rfind('#')) {
+                (Some(i), Some(j)) if i < j => format!("{}{}", &m[..i], &m[j..]),
+                _ => m.to_owned(),
+            }
+        };
+        let found: Vec<crate::lspcheck::Rng> =
+            published.iter().filter(|d| d["message"].as_str().map(strip) == Some(strip(&msg))).filter_map(|d| crate::lspcheck::parse_range(&d["range"])).collect();
+        if !found.contains(&want) {
+            return Err(Failure::new(
+                "c16:server-range",
+                format!("{what}: the syntax error `{msg}` at bytes {a}..{b} must be published with range {want:?} (which selects {:?} in the client's text); published for that message: {found:?}", &text[a..b]),
+            ));
+        }
+        n += 1;
+    }
+    Ok(n)
+}
+
+/// One session: the open document is changed to `t1`; then (if given) the document is closed
+/// without saving while the file holds `t2`, and opened again with `t2`.
+fn check_server(t1: &str, t2: Option<&str>, r: &mut CaseReport) {
+    use crate::lspc::{Lsp, LspError, Scratch};
+    SERVER.with(|cell| {
+        let mut cell = cell.borrow_mut();
+        if cell.is_none() {
+            let dir = Scratch::new("c16lsp");
+            dir.write("oal.toml", "[api]\nmain = \"main.oal\"\ntarget = \"out.yaml\"\n");
+            dir.write("main.oal", "res / on get -> <>;\n");
+            match Lsp::start(&dir.path) {
+                Ok(mut lsp) => {
+                    let uri = dir.uri("main.oal");
+                    let _ = lsp.did_open(&uri, "res / on get -> <>;\n");
+                    *cell = Some((dir, lsp));
+                }
+                Err(e) => {
+                    r.fail(Failure::new("lsp:cannot-start", format!("{e:?}")));
+                    return;
+                }
+            }
+        }
+        let (dir, lsp) = cell.as_mut().unwrap();
+        let uri = dir.uri("main.oal");
+        let mut session = || -> Result<Result<u64, Failure>, LspError> {
+            let mut n = 0;
+            lsp.did_change(&uri, &[(None, t1.to_owned())])?;
+            lsp.barrier(&uri)?;
+            match check_published(t1, lsp.diags.get(&uri).map(|v| v.as_slice()).unwrap_or(&[]), "after a full-text change") {
+                Ok(k) => n += k,
+                Err(f) => return Ok(Err(f)),
+            }
+            if let Some(t2) = t2 {
+                dir.write("main.oal", t2);
+                lsp.did_close(&uri)?;
+                lsp.barrier(&uri)?;
+                match check_published(t2, lsp.diags.get(&uri).map(|v| v.as_slice()).unwrap_or(&[]), "after closing the changed document without saving (the file holds another text)") {
+                    Ok(k) => n += k,
+                    Err(f) => return Ok(Err(f)),
+                }
+                lsp.did_open(&uri, t2)?;
+                lsp.barrier(&uri)?;
+                match check_published(t2, lsp.diags.get(&uri).map(|v| v.as_slice()).unwrap_or(&[]), "after opening the document again") {
+                    Ok(k) => n += k,
+                    Err(f) => return Ok(Err(f)),
+                }
+            }
+            Ok(Ok(n))
+        };
+        match session() {
+            Ok(Ok(n)) => r.evaluations = n.max(1),
+            Ok(Err(f)) => {
+                r.fail(f);
+                *cell = None;
+            }
+            Err(LspError::Died(status, stderr)) => {
+                let site = crate::props::c04::panic_site(&stderr);
+                let sig = if site.contains(".rs:") { format!("panic:{site}") } else { format!("lsp:{status}:{site}") };
+                r.fail(Failure::new(sig, format!("oal-lsp died ({status}); stderr tail: {}", stderr.chars().rev().take(400).collect::<String>().chars().rev().collect::<String>())));
+                *cell = None;
+            }
+            Err(LspError::Timeout) => {
+                r.label("lsp-timeout-inconclusive");
+                *cell = None;
+            }
+            Err(LspError::Protocol(m)) => {
+                r.fail(Failure::new("lsp:protocol", m));
+                *cell = None;
+            }
+        }
+    });
+}
+
+/// A text for the server door: mostly oal-like lines (so that spans of several kinds of syntax
+/// errors arise) mixed with the units of the conversion alphabet.
+fn server_text(tape: &mut Tape) -> String {
+    const PIECES: [&str; 16] = ["let a = num;", "let b = { 'x str };", "res / on get -> <>;", "\"caf\u{e9} \u{1F600}", "// \u{20ac}\u{1F600}", "/* \u{e9}", "^", "\u{e9}", "\u{1F600}", "let", "= ;", "\"ok\"", "# title: \"\u{540d}\"", "'p", "12345678901234567890123", "@r"];
+    let n = tape.range(1, 14);
+    let mut s = String::new();
+    for _ in 0..n {
+        match tape.weighted(&[6, 2, 2, 2]) {
+            0 => s.push_str(tape.pick(&PIECES)),
+            1 => s.push_str(tape.pick(&UNITS)),
+            2 => s.push('\n'),
+            _ => s.push_str("\r\n"),
+        }
+        if tape.chance(1, 2) {
+            s.push(' ');
+        }
+    }
+    s
+}
+
 fn random_text(tape: &mut Tape) -> String {
     const EXTRA: [&str; 10] = [" ", "\t", "x", "Z", "0", "\u{df}", "\u{4e2d}", "\u{1F980}", "\u{301}", "\u{10FFFF}"];
     let len = tape.range(0, 400);
@@ -179,7 +332,7 @@ impl Property for C16 {
         900
     }
     fn cases(&self, tier: Tier) -> u64 {
-        seq_space(6, max_len(tier)) + n_random(tier)
+        seq_space(6, max_len(tier)) + n_random(tier) + n_server(tier)
     }
     fn rule(&self) -> String {
         "Cases: every text of <= L units over {a, e-acute (2 bytes), euro (3 bytes), grinning face (4 bytes, 2 UTF-16 units), LF, CRLF} \
@@ -203,6 +356,27 @@ impl Property for C16 {
     }
     fn run_case(&self, tape: &mut Tape, ctx: &CaseCtx) -> CaseReport {
         let space = seq_space(6, max_len(ctx.tier));
+        if ctx.index >= space + n_random(ctx.tier) {
+            let t1 = if tape.chance(1, 4) { random_text(tape) } else { server_text(tape) };
+            let t2 = if tape.chance(1, 2) { Some(if tape.chance(1, 4) { random_text(tape) } else { server_text(tape) }) } else { None };
+            let mut r = CaseReport::default();
+            r.hash = {
+                use std::hash::{Hash, Hasher};
+                let mut h = std::collections::hash_map::DefaultHasher::new();
+                (&t1, &t2, 1u8).hash(&mut h);
+                h.finish()
+            };
+            check_server(&t1, t2.as_deref(), &mut r);
+            r.label("server-door");
+            if t2.is_some() {
+                r.label("server-door:close-unsaved");
+            }
+            r.nontrivial = r.evaluations >= 1 && (t1.chars().any(|c| c.len_utf8() > 1) || t2.as_deref().map_or(false, |t| t.chars().any(|c| c.len_utf8() > 1)));
+            if ctx.want_rendered || r.failure.is_some() {
+                r.rendered = Some(json!({"server": true, "t1": t1, "t2": t2}));
+            }
+            return r;
+        }
         let (text, exhaustive) = if ctx.index < space {
             (decode_seq(ctx.index, 6, max_len(ctx.tier)).iter().map(|u| UNITS[*u]).collect::<String>(), true)
         } else {
@@ -235,6 +409,14 @@ impl Property for C16 {
         r
     }
     fn replay(&self, case: &Value) -> Option<Result<(), Failure>> {
+        if case.get("server").is_some() {
+            let mut r = CaseReport::default();
+            check_server(case.get("t1")?.as_str()?, case.get("t2").and_then(|t| t.as_str()), &mut r);
+            return Some(match r.failure {
+                Some(f) => Err(f),
+                None => Ok(()),
+            });
+        }
         let text = case.get("text")?.as_str()?;
         Some(match check_text(text, true).1 {
             Some(f) => Err(f),
